@@ -487,6 +487,60 @@ Definition apply_report (s : vset) (report : list validator) : option (vset * ue
   end.
 
 (* ------------------------------------------------------------------ *)
+(** * updateState as a whole: the three validator sets that LatestBlockState carries from block
+      to block (LastValidators, Validators, NextValidators), LastBlockHeight and
+      LastHeightValidatorsChanged (both uint64).  A nil set (LastValidators at genesis) is the
+      empty set; the Copy() calls are value copies (see the conventions at the top). *)
+
+Record chain := {
+  ch_last : vset;        (* LastValidators *)
+  ch_cur : vset;         (* Validators: the set of the next block *)
+  ch_next : vset;        (* NextValidators: the set of the block after it *)
+  ch_height : Z;         (* LastBlockHeight *)
+  ch_changed : Z }.      (* LastHeightValidatorsChanged *)
+
+(** updateState(state, header{Height = height}, validatorUpdates = ups): on error the state
+    passed in is returned; [None] = panic *)
+Definition update_state (st : chain) (height : Z) (ups : list validator) : option (chain * uerr) :=
+  match (match ups with
+         | [] => Some (ch_next st, UOk)
+         | _ => update_with_change_set (ch_next st) ups true
+         end) with
+  | None => None
+  | Some (n1, UOk) =>
+    match increment n1 1 with
+    | None => None
+    | Some n2 =>
+      Some ({| ch_last := ch_cur st; ch_cur := ch_next st; ch_next := n2; ch_height := height;
+               ch_changed := match ups with
+                             | [] => ch_changed st
+                             | _ => wrapu64 (height + 2)
+                             end |}, UOk)
+    end
+  | Some (_, e) => Some (st, e)
+  end.
+
+(** the validator part of ApplyBlock for the block at height LastBlockHeight + 1 *)
+Definition apply_block (st : chain) (report : list validator) : option (chain * uerr) :=
+  update_state st (wrapu64 (ch_height st + 1)) (calculate_updates (vs_vals (ch_next st)) report).
+
+(** the genesis arrangement (MakeGenesisState): Validators is the set, NextValidators is
+    CopyIncrementProposerPriority(1) of it, LastValidators is nil, heights 0 and 1 *)
+Definition chain_genesis (s : vset) : option chain :=
+  match increment s 1 with
+  | None => None
+  | Some n => Some {| ch_last := empty_vset; ch_cur := s; ch_next := n; ch_height := 0; ch_changed := 1 |}
+  end.
+
+(** the proposer of round [k] >= 1 of a height, as consensus derives it from the height's set:
+    CopyIncrementProposerPriority(k).GetProposer() *)
+Definition proposer_at (s : vset) (k : Z) : option N :=
+  match increment s k with
+  | Some s' => match vs_proposer s' with Some (a, _) => Some a | None => None end
+  | None => None
+  end.
+
+(* ------------------------------------------------------------------ *)
 (** * Histories over a few named sets (slots), as the harness drives them *)
 
 Inductive op :=
@@ -495,7 +549,8 @@ Inductive op :=
 | OpUpd (slot : nat) (changes : list validator)
 | OpCopy (src dst : nat)
 | OpRounds (slot : nat) (rounds : nat)       (* rounds x IncrementProposerPriority(1), proposer read each round *)
-| OpReport (slot : nat) (report : list validator).   (* calculateValidatorSetUpdates + updateState *)
+| OpReport (slot : nat) (report : list validator)    (* calculateValidatorSetUpdates + updateState *)
+| OpCopyInc (src dst : nat) (times : Z).             (* dst := src.CopyIncrementProposerPriority(times) *)
 
 (** observation of a slot: TotalVotingPower(), GetProposer() (when asked), the validators *)
 Record obs := {
@@ -560,6 +615,11 @@ Definition step (st : list vset) (o : op) (ask : bool) : list vset * obs :=
     | None => let '(s', ob) := observe (slot_get st i) ask true UOk [] in (set_nth i s' st, ob)
     | Some (s, e) => let '(s', ob) := observe s ask false e [] in (set_nth i s' st, ob)
     end
+  | OpCopyInc i j k =>
+    match increment (slot_get st i) k with
+    | None => let '(s', ob) := observe (slot_get st j) ask true UOk [] in (set_nth j s' st, ob)
+    | Some s => let '(s', ob) := observe s ask false UOk [] in (set_nth j s' st, ob)
+    end
   | OpRounds i n =>
     match rounds_run (slot_get st i) n [] with
     | None => let '(s', ob) := observe (slot_get st i) ask true UOk [] in (set_nth i s' st, ob)
@@ -568,3 +628,41 @@ Definition step (st : list vset) (o : op) (ask : bool) : list vset * obs :=
   end.
 
 Definition init_slots : list vset := [empty_vset; empty_vset; empty_vset; empty_vset].
+
+(* ------------------------------------------------------------------ *)
+(** * Histories of blocks over one chain state *)
+
+Inductive cop :=
+| CGenesis (slot : nat)                    (* start the chain from the set in a slot *)
+| CBlock (report : list validator).        (* calculateValidatorSetUpdates + updateState, all of the state observed *)
+
+Record cobs := {
+  co_panic : bool; co_err : uerr; co_height : Z; co_changed : Z;
+  co_last : obs; co_cur : obs; co_next : obs;
+  co_rounds : list (option N) }.           (* proposers of rounds 1, 2, 3 of the next block *)
+
+Definition chain_observe (c : chain) (ask panic : bool) (e : uerr) : chain * cobs :=
+  let '(l, ol) := observe (ch_last c) ask false UOk [] in
+  let '(m, om) := observe (ch_cur c) ask false UOk [] in
+  let '(n, on) := observe (ch_next c) ask false UOk [] in
+  ({| ch_last := l; ch_cur := m; ch_next := n; ch_height := ch_height c; ch_changed := ch_changed c |},
+   {| co_panic := panic; co_err := e; co_height := ch_height c; co_changed := ch_changed c;
+      co_last := ol; co_cur := om; co_next := on;
+      co_rounds := map (proposer_at m) [1; 2; 3] |}).
+
+Definition chain_step (slots : list vset) (c : chain) (o : cop) (ask : bool) : chain * cobs :=
+  match o with
+  | CGenesis i =>
+    match chain_genesis (slot_get slots i) with
+    | None => chain_observe c ask true UOk
+    | Some c' => chain_observe c' ask false UOk
+    end
+  | CBlock rep =>
+    match apply_block c rep with
+    | None => chain_observe c ask true UOk
+    | Some (c', e) => chain_observe c' ask false e
+    end
+  end.
+
+Definition init_chain : chain :=
+  {| ch_last := empty_vset; ch_cur := empty_vset; ch_next := empty_vset; ch_height := 0; ch_changed := 0 |}.
